@@ -2,7 +2,8 @@
    Every theorem quantifies over the hash function [md5raw] (MD5 is an argument, not an axiom), over all
    datagrams, configurations and histories.  Flag records: [repaired] = every repair in place; [head] = what
    /repo HEAD implements (the five committed C08 fixes; NOT the Event-Timestamp requirement of
-   fixes/C08_require_event_timestamp.patch — the one finding still recorded as known).  Theorems that do not depend on that requirement are
+   fixes/C08_require_event_timestamp.patch and NOT the one extra second of duplicate-cache lifetime of
+   fixes/C08_replay_cache_lifetime.patch — the two findings recorded as known).  Theorems that do not depend on that requirement are
    stated for every flag record with the relevant repair on, so they cover both.  Each [_refuted] lemma shows
    that the statement fails when the named repair is off. *)
 From OV Require Import Common.Base C08.Model C08.Proofs.
@@ -320,7 +321,7 @@ Print Assumptions C08_coa_unauthenticated_request_refuted.
 (* before commit 331235d (f_dmwin off): the replay window is not applied to Disconnect-Request *)
 Lemma C08_disconnect_window_refuted :
   exists md5raw cfg now src bus raw p t,
-    effect (coa_step md5raw {| f_reply := true; f_coaauth := true; f_dmwin := false; f_white := true; f_tsreq := true; f_dedup := true |}
+    effect (coa_step md5raw {| f_reply := true; f_coaauth := true; f_dmwin := false; f_white := true; f_tsreq := true; f_dedup := true; f_ttl := true |}
                      cfg now src bus raw) = Some (EvTerminate t) /\
     parse raw = Some p /\ window_ok (window cfg) now (p_attrs p) = false.
 Proof.
@@ -393,6 +394,60 @@ Example C08_coa_single_execution_nonvacuous :
 Proof. vm_compute. repeat split; reflexivity. Qed.
 Print Assumptions C08_coa_single_execution_nonvacuous.
 
+(* The duplicate cache has a LIFETIME and a CAPACITY (replayCache, coa.go; [coa_step_t] with wall-clock milliseconds).
+   With the corrected lifetime 2*window + 1 s ([f_ttl]) an entry never expires while its request could still pass the
+   window: a timestamped request that took effect never takes effect again when replayed against the cache it left
+   behind, at whatever later instant and second it arrives (t0 / T milliseconds, now0 / nowT the seconds they fall in). *)
+Theorem C08_timed_cache_replay_suppressed :
+  forall md5raw tsr (max : nat) rej1 orep1 rej2 orep2 cfg now0 t0 nowT T src bus1 bus2 raw p o1 c1 e,
+    (0 < max)%nat -> (0 < window cfg)%Z ->
+    parse raw = Some p -> event_ts (p_attrs p) <> 0 ->
+    (1000 * now0 <= t0)%Z -> (T < 1000 * (nowT + 1))%Z ->
+    coa_step_t md5raw max (flt tsr true true) rej1 orep1 cfg now0 t0 src bus1 raw rcache0 = (o1, c1) ->
+    effect o1 = Some e ->
+    effect (fst (coa_step_t md5raw max (flt tsr true true) rej2 orep2 cfg nowT T src bus2 raw c1)) = None.
+Proof. intros md5raw tsr max. intros. eapply (timed_replay_suppressed md5raw tsr true); eauto. Qed.
+Print Assumptions C08_timed_cache_replay_suppressed.
+
+Theorem C08_cache_entry_outlives_window :
+  forall fl w ts now0 t0 nowT T,
+    f_ttl fl = true -> (0 < w)%Z ->
+    (1000 * now0 <= t0)%Z -> (T < 1000 * (nowT + 1))%Z ->
+    (- w <= now0 - ts)%Z -> (nowT - ts <= w)%Z ->
+    (T < t0 + cache_ttl fl w)%Z.
+Proof. exact ttl_outlives_window. Qed.
+Print Assumptions C08_cache_entry_outlives_window.
+
+(* /repo HEAD keeps an entry for exactly 2*window.  A request stamped `window` seconds AHEAD of the clock, executed at
+   t0 (second 700, stamp 1000, window 300), is still inside the window during the whole second 1300, but its entry expired
+   at t0 + 600 s: replayed in the rest of that second it is executed again (known finding
+   coa-duplicate-cache-expires-inside-window; fix: one more second of lifetime). *)
+Lemma C08_cache_expiry_inside_window_refuted :
+  exists o1 c1,
+    coa_step_t toy cache_max head false None ex_cfg 700 700100 2130706434 0 ex_dm_user rcache0 = (o1, c1) /\
+    effect o1 = Some (EvTerminate (3, [97; 108])) /\
+    effect (fst (coa_step_t toy cache_max head false None ex_cfg 1300 1300400 2130706434 0 ex_dm_user c1))
+    = Some (EvTerminate (3, [97; 108])) /\
+    effect (fst (coa_step_t toy cache_max head false None ex_cfg 1300 1300050 2130706434 0 ex_dm_user c1)) = None.
+Proof. eexists. eexists. split; [vm_compute; reflexivity|]. vm_compute. repeat split; reflexivity. Qed.
+Print Assumptions C08_cache_expiry_inside_window_refuted.
+
+(* the same history with the corrected lifetime, and the capacity limit (observation, both variants: with a capacity of 2
+   a third distinct request evicts the first, whose replay inside the window is then executed again — with the real
+   capacity this needs 4096 newer authenticated requests inside 2*window) *)
+Example C08_timed_cache_nonvacuous :
+  (let '(o1, c1) := coa_step_t toy cache_max repaired false None ex_cfg 700 700100 2130706434 0 ex_dm_user rcache0 in
+   effect o1 = Some (EvTerminate (3, [97; 108])) /\
+   effect (fst (coa_step_t toy cache_max repaired false None ex_cfg 1300 1300400 2130706434 0 ex_dm_user c1)) = None) /\
+  (let '(_, c1) := coa_step_t toy 2 repaired false None ex_cfg 1000 1000100 2130706434 0 ex_dm_user rcache0 in
+   let '(_, c2) := coa_step_t toy 2 repaired false None ex_cfg 1000 1000200 2130706434 0 ex_coa_a c1 in
+   let '(_, c3) := coa_step_t toy 2 repaired false None ex_cfg 1000 1000300 2130706434 0 ex_coa_b c2 in
+   effect (fst (coa_step_t toy 2 repaired false None ex_cfg 1000 1000400 2130706434 0 ex_coa_b c3)) = None /\
+   effect (fst (coa_step_t toy 2 repaired false None ex_cfg 1000 1000400 2130706434 0 ex_dm_user c3))
+   = Some (EvTerminate (3, [97; 108]))).
+Proof. vm_compute. repeat split; reflexivity. Qed.
+Print Assumptions C08_timed_cache_nonvacuous.
+
 (* Before commit 3a9d01d the listener had no duplicate detection ([pre_dedup]; finding coa-duplicate-request-reexecuted,
    fixed).  Two consequences that were NOT idempotent: (a) a Disconnect-Request that names the subscriber by User-Name (or Framed-IP-Address),
    replayed inside the window, publishes a second terminate event for that name — whatever session carries
@@ -419,8 +474,8 @@ Print Assumptions C08_replayed_older_coa_reverts_newer_refuted.
    resolved from the identification attributes of the packet alone.  A Disconnect takes effect only when the
    packet carries nothing but identification attributes. *)
 Theorem C08_coa_mutable_only :
-  forall md5raw tsr dd cfg now src bus raw e,   (* flt true true = repaired, flt false true = head *)
-    effect (coa_step md5raw (flt tsr dd) cfg now src bus raw) = Some e ->
+  forall md5raw tsr dd tt cfg now src bus raw e,   (* flt true true true = repaired, flt false true false = head *)
+    effect (coa_step md5raw (flt tsr dd tt) cfg now src bus raw) = Some e ->
     exists p, parse raw = Some p /\
       match e with
       | EvMutation t delta =>
@@ -442,7 +497,7 @@ Definition ex_l2gw_body : bytes := [44; 4; 115; 49; 26; 9; 0; 0; 126; 217; 1; 3;
 Definition ex_l2gw : bytes := sign_req [107] [43; 9; 0; 39] ex_l2gw_body.
 Lemma C08_coa_mutable_only_refuted :
   exists md5raw cfg now src bus raw t delta,
-    effect (coa_step md5raw {| f_reply := true; f_coaauth := true; f_dmwin := true; f_white := false; f_tsreq := true; f_dedup := true |}
+    effect (coa_step md5raw {| f_reply := true; f_coaauth := true; f_dmwin := true; f_white := false; f_tsreq := true; f_dedup := true; f_ttl := true |}
                      cfg now src bus raw) = Some (EvMutation t delta) /\
     all_allowed delta = false.
 Proof.
